@@ -69,16 +69,16 @@ Qed.
 
 (* ------------------------------------------------------------------ the parses relation *)
 Definition parses {A} (m : M A) (bytes : list N) (v : A) : Prop :=
-  forall tl a, exists a', m (St (bytes ++ tl) a) = Ok v (St tl a').
+  forall tl a mx, exists a' mx', m (St (bytes ++ tl) a mx) = Ok v (St tl a' mx').
 
 Lemma parses_ret {A} (v : A) : parses (ret v) [] v.
-Proof. intros tl a. exists a. reflexivity. Qed.
+Proof. intros tl a mx. exists a, mx. reflexivity. Qed.
 
 Lemma parses_bind {A B} (m : M A) (k : A -> M B) b1 b2 v1 v2 :
   parses m b1 v1 -> parses (k v1) b2 v2 -> parses (bind m k) (b1 ++ b2) v2.
 Proof.
-  intros H1 H2 tl a. unfold bind. rewrite <- app_assoc.
-  destruct (H1 (b2 ++ tl) a) as [a1 E1]. rewrite E1. apply H2.
+  intros H1 H2 tl a mx. unfold bind. rewrite <- app_assoc.
+  destruct (H1 (b2 ++ tl) a mx) as (a1 & m1 & E1). rewrite E1. apply H2.
 Qed.
 
 Lemma parses_bind0 {A B} (m : M A) (k : A -> M B) b v1 v2 :
@@ -90,7 +90,7 @@ Lemma parses_bind_end {A B} (m : M A) (k : A -> M B) b v1 v2 :
 Proof. intros H1 H2. rewrite <- (app_nil_r b). eapply parses_bind; eassumption. Qed.
 
 Lemma parses_alloc n : parses (alloc n) [] tt.
-Proof. intros tl a. exists (a + n). reflexivity. Qed.
+Proof. intros tl a mx. exists (a + n), (N.max mx n). reflexivity. Qed.
 
 Lemma parses_check n lim w : n <= lim -> parses (check_limit n lim w) [] tt.
 Proof.
@@ -107,7 +107,7 @@ Proof.
 Qed.
 
 Lemma parses_exact (s : list N) : parses (rd_exact (lenN s)) s s.
-Proof. intros tl a. exists a. unfold rd_exact. cbn [s_in s_alloc]. rewrite take_n_app. reflexivity. Qed.
+Proof. intros tl a mx. exists a, mx. unfold rd_exact. cbn [s_in s_alloc s_max]. rewrite take_n_app. reflexivity. Qed.
 
 Lemma parses_bytes (s : list N) : parses (rd_bytes (lenN s)) s s.
 Proof.
@@ -445,12 +445,12 @@ Qed.
 
 Lemma read_write_lemma dbg f : in_types f -> wf_sizes f -> read dbg (write f) = ROk (normalize f).
 Proof.
-  intros T S. destruct (rd_program_parses dbg f T S [] 0) as [a' E].
+  intros T S. destruct (rd_program_parses dbg f T S [] 0 0) as (a' & m' & E).
   unfold read. rewrite app_nil_r in E. rewrite E. reflexivity.
 Qed.
 
 (* the reader never runs out of fuel: the depth guard fires first *)
-Definition no_fuel_err {A} (r : res A) : Prop := match r with Err EFuel _ => False | _ => True end.
+Definition no_fuel_err {A} (r : res A) : Prop := match r with Err EFuel _ _ => False | _ => True end.
 
 Lemma bind_no_fuel {A B} (m : M A) (k : A -> M B) s :
   no_fuel_err (m s) -> (forall a s', no_fuel_err (k a s')) -> no_fuel_err (bind m k s).
